@@ -182,6 +182,7 @@ pub fn check(s: &'static dyn Proto, c: &Case, st: &mut Stats, _k: &KnownFindings
 pub const BUDGET: Budget = Budget {
     quick: (200, 80, 30),
     thorough: (2000, 600, 200),
+    shrink: 200,
 };
 
 pub fn run(cfg: &RunCfg) -> (Outcome, EvidenceExtra) {
